@@ -2,6 +2,7 @@ package main
 
 import (
 	"fmt"
+	"os/exec"
 	"strings"
 )
 
@@ -77,7 +78,7 @@ func checkC08(c *Ctx) {
 			fmt.Sprintf("ArgSets = \"%s\"", argSets), fmt.Sprintf("ParamSets = \"%s\"", paramSets), "CallLimit = 50", fmt.Sprintf("Fuel = %d", fuel),
 			"NextOutsidePattern = {\"ends-rule\"}",
 			"INVARIANTS TypeOK FrameBalance BaseAtRuleStart DepthBounded NoEscape OutcomeLegal SigConsumed ScopeExit Vec",
-			"PROPERTIES StopFreezesOutput DoneIsFinal"),
+			"PROPERTIES StopFreezesOutput DoneIsFinal RefinesFrames"),
 		OnVec: func(raw []byte) {
 			var v callVec
 			VecDecode(raw, &v)
@@ -168,6 +169,14 @@ func checkC08(c *Ctx) {
 		ncore = 2000
 	}
 	checkCore(c, ncore, 8)
+
+	// an extra on top of TLC (no verdict depends on it): Apalache proves the frame discipline of the
+	// abstraction JqFramesInd, which JqEval refines (PROPERTY RefinesFrames above), for EVERY call-depth limit
+	if out, err := exec.Command("/verif/tools/apalache_frames.sh").CombinedOutput(); err == nil {
+		c.Set("apalache_inductive_invariant", "proved for every limit L >= 1: "+strings.TrimSpace(string(out)))
+	} else {
+		c.Set("apalache_inductive_invariant", "not established on this run: "+strings.TrimSpace(string(out)))
+	}
 
 	c.Set("exhaustive", true)
 	c.Set("bounds", map[string]any{"BodyLen": bodyLen, "ArgSets": argSets, "ParamSets": paramSets, "Fuel": fuel, "long_inputs": ns})
